@@ -52,7 +52,7 @@ CLAIMS = {
                 note='Concrete junk per class comes from a small catalogue. A syntactically broken document inside a good multi-document file is excluded (the resource builder abandons the rest of that file; named ScanFileAbort in the model). Attribution to a file is demanded for list only.'),
     'C14': dict(tech='edge laws (Laws.tla) attached to Cluster.tla actions: TLC checks them on the reference (LawsCheck) and ReplayTrace asserts them on the two real reports of every edge',
                 text='Additivity, locality and re-spelling invariance asserted oracle-free on pairs of real reports for every AddRule/AddPolicy/Respell*/Split* edge of TLC-generated behaviours; the laws themselves are TLC-checked consequences of the reference.', ref='6/C14'),
-    'C15': dict(tech='TLA+ model of the engine as current objects (EngineModel.tla) + history generator (Engine.tla: TLC random walks and exhaustive short histories) replayed on a real eval.PolicyEngine; recorded histories validated by TLC (EngineTrace.tla) against the model and against a fresh engine; design layer CacheDesign.tla (memoisation + invalidation as the code does them) model-checked for cache coherence, bound to the code by Peek events (every memoised verdict read through the hook VerifCachePeek after every operation)',
+    'C15': dict(tech='TLA+ model of the engine as current objects (EngineModel.tla) + history generator (Engine.tla: TLC random walks and exhaustive short histories) replayed on a real eval.PolicyEngine (InsertObject / DeleteObject / SetResources / ClearResources); recorded histories validated by TLC (EngineTrace.tla) against the model and against a fresh engine; design layer CacheDesign.tla (memoisation + invalidation as the code does them) model-checked for cache coherence, bound to the code by Peek events (every memoised verdict read through the hook VerifCachePeek after every operation)',
                 text='Every CheckIfAllowed reply after every update of every explored history equals (a) the reference semantics on the current abstract objects and (b) the reply of a fresh engine built from the same objects; '
                      'every memoised verdict found in the real cache after every operation equals the reference on the current objects (CacheCoherent); operation outcomes (ok/error/no crash) equal the model; all histories of 3 operations over a 20-operation catalogue (thorough: also of 4 operations over a 12-operation catalogue) (delete + re-insert with other content for every kind, pod update re-declaring a named port, sibling pod with another template) after a cache-warming prefix are enumerated exhaustively, '
                      'long random walks and seeded random histories over a larger universe are sampled.', ref='6/C15',
